@@ -11,6 +11,7 @@ import (
 	"github.com/synnaxlabs/cesium/internal/channel"
 	"github.com/synnaxlabs/cesium/internal/domain"
 	"github.com/synnaxlabs/cesium/internal/index"
+	xfs "github.com/synnaxlabs/x/io/fs"
 	"github.com/synnaxlabs/x/telem"
 )
 
@@ -61,7 +62,11 @@ func verifIndexChannelDBShaped(d, s int, aligned, tightEnd bool) (*DB, []telem.T
 		copy(order[pos+1:], order[pos:])
 		order[pos] = i
 	}
-	ddb := domain.VerifBuildDBInOrder(specs, order)
+	fs := xfs.NewMem()
+	ddb := domain.VerifBuildRealDB(fs, specs, order)
+	if verifParam("reopen", 1) == 1 && verifBool("close-and-reopen") {
+		ddb = domain.VerifReopen(ddb, fs)
+	}
 	ch := channel.Channel{Key: 1, Name: "idx", IsIndex: true, Index: 1, DataType: telem.TimeStampT}
 	db := &DB{
 		domain:           ddb,
@@ -112,3 +117,34 @@ func VerifC01UnaryRead() {
 }
 
 func ddbInstr() (ins alamos.Instrumentation) { return }
+
+// VerifC01UnaryReadDense: as VerifC01UnaryRead on a single domain with more samples.
+func VerifC01UnaryReadDense() {
+	db, all, _ := verifIndexChannelDB(1, verifParam("dense", 3))
+	tr := telem.TimeRange{Start: telem.TimeStamp(verifInt64("tr.start")), End: telem.TimeStamp(verifInt64("tr.end"))}
+	verifAssume(tr.Start >= 0 && tr.Start < tr.End)
+	fr, err := db.Read(context.Background(), tr)
+	verifAssert("dense-read-no-error", err == nil)
+	var got []telem.TimeStamp
+	for s := range fr.Series() {
+		for i := 0; i+8 <= len(s.Data); i += 8 {
+			got = append(got, telem.TimeStamp(telem.ByteOrder.Uint64(s.Data[i:i+8])))
+		}
+	}
+	var want []telem.TimeStamp
+	for _, t := range all {
+		if t >= tr.Start && t < tr.End {
+			want = append(want, t)
+		}
+	}
+	ok := len(got) == len(want)
+	if ok {
+		for i := range got {
+			if got[i] != want[i] {
+				ok = false
+			}
+		}
+	}
+	verifAssert("dense-read-exact-samples-in-order", ok)
+	verifReach("end")
+}
